@@ -32,7 +32,10 @@ def save_dict_to_yaml_file(filename: str, serialized_object: dict) -> None:
     )
 
     with open(filename, 'w', encoding='utf-8') as f:
-        yaml.dump(serialized_object, f, Dumper=yaml.SafeDumper)
+        # Keep the insertion order, e.g. the order of the assets of a model
+        # determines the node ids of the attack graphs generated from it.
+        yaml.dump(serialized_object, f, Dumper=yaml.SafeDumper,
+            sort_keys=False)
 
 
 def load_dict_from_yaml_file(filename: str) -> dict:
